@@ -234,6 +234,15 @@ func toBitsList(bitDefintions []*meta.Bit, v interface{}) (val.BitsList, error) 
 		return toBitsListHandler(bitDefintions, x)
 	case []float64: // default type for decimals from JSON parser
 		return toBitsListHandler(bitDefintions, x)
+	case []interface{}: // arrays from JSON parser
+		result := make([]val.Bits, len(x))
+		var err error
+		for i, item := range x {
+			if result[i], err = toBits(bitDefintions, item); err != nil {
+				return nil, err
+			}
+		}
+		return result, nil
 	}
 	return nil, fmt.Errorf("could not coerce %v into BitList", v)
 }
